@@ -174,6 +174,9 @@ def run_case(ctx, case):
     U, P, W, args = c["U"], [tuple(q) for q in c["P"]], c["W"], c["args"]
     rec.case(case, nontrivial=nontrivial_kv(U))
     rec.count("data", c.get("label", "?"))
+    if c.get("label") == "dyadic":
+        # float data first: whatever the library memoises for these (numerically equal) knot vectors is now float
+        impl(lambda: pipeline(float, U, P, W, args, False))
     r = impl(lambda: pipeline(ident, U, P, W, args, ints=(c.get("label") == "int")))
     if r[0] != "ok":
         rec.violation("pipeline raised on exact data", case, observed=r[1])
@@ -206,6 +209,25 @@ def run_case(ctx, case):
             if not near_scaled(got, cx[name], scale_of(cx[name]), F(1, 10**8)):
                 rec.violation("'%s' on %s data differs from the exact result by more than rounding" % (name, rep), case, observed=ser(got), expected=ser(cx[name]))
                 return
+    rerun_exact(ctx, case, c, U, P, W, args, cx)
+
+
+def rerun_exact(ctx, case, c, U, P, W, args, cx):
+    """after the float runs, the exact run must give the very same exact answers (no float state may leak through caches)"""
+    rec = ctx["rec"]
+    r = impl(lambda: pipeline(ident, U, P, W, args, ints=(c.get("label") == "int")))
+    if r[0] != "ok":
+        rec.violation("exact pipeline raised when repeated after the float runs", case, observed=r[1])
+        return
+    for name, v in r[1].items():
+        rec.count("rerun", name)
+        if floats_in(v):
+            rec.violation("float introduced by '%s' on exact data after the same operation ran on float data" % name, case)
+            return
+        if canon(v) != cx[name]:
+            rec.violation("'%s' on exact data changed after the same operation ran on float data" % name, case,
+                          observed=ser(canon(v)), expected=ser(cx[name]))
+            return
 
 
 def run_custom(ctx, case, c):
@@ -262,10 +284,14 @@ def wellcond_kv(rng, p, nint, interval):
 def run(ctx):
     rng = ctx["rng"]
     for i in range(budget(ctx, 30, 400)):
-        label = ["fraction", "int", "fraction", "big", "int"][i % 5]
+        label = ["fraction", "int", "dyadic", "big", "int", "fraction"][i % 6]
         interval = rng.choice([(F(0), F(1)), (F(-1), F(2)), (F(1, 3), F(7, 3))])
         p = rng.randint(1, 3)
         U = wellcond_kv(rng, p, rng.randint(0, 2), interval)
+        if label == "dyadic":
+            # knots that are exactly representable as floats: the float and the exact run see numerically equal knot vectors
+            interval = (F(0), F(1))
+            U = [F(0)] * (p + 1) + sorted(rng.sample([F(1, 4), F(1, 2), F(3, 4)], rng.randint(0, 2))) + [F(1)] * (p + 1)
         n = kv_info(U)[1]
         dim = rng.choice([1, 1, 2])
         if label == "int":
@@ -275,8 +301,8 @@ def run(ctx):
             P = rand_points(rng, n, dim, big=True)
             W = None
         else:
-            P = rand_points(rng, n, dim)
-            W = rng.choice([None, None, [F(rng.randint(2, 50), 10) for _ in range(n)]])
+            P = rand_points(rng, n, dim if label != "dyadic" else 1)
+            W = rng.choice([None, None, [F(rng.randint(2, 50), 10) for _ in range(n)]]) if label != "dyadic" else None
         a, b = interval
         nodes = []
         for _ in range(rng.randint(1, 2)):
@@ -286,6 +312,9 @@ def run(ctx):
         if not nodes:
             continue
         VB = wellcond_kv(rng, rng.randint(1, 2), rng.randint(0, 1), interval)
+        if label == "dyadic":
+            q = rng.randint(1, 2)
+            VB = [F(0)] * (q + 1) + rng.choice([[], [F(1, 2)]]) + [F(1)] * (q + 1)
         args = dict(us=params_for(rng, U, extra=2), nodes=nodes, cut=a + (b - a) * rng.choice(GRID), VB=VB,
                     PB=[(F(rng.randint(2, 9), rng.randint(1, 3)),) for _ in range(kv_info(VB)[1])],
                     S=wellcond_kv(rng, rng.randint(1, 3), rng.randint(0, 2), interval),
